@@ -48,7 +48,7 @@ FLOORS = {
               "cls": {"finite-velocity": 6}},
     "thorough": {"distinct_nontrivial": 150,
                  "mon": {"wallPressure_calls": 2500, "solveWall": 500,
-                         "probe_evaluations": 250, "history_repeats": 150},
+                         "probe_evaluations": 200, "history_repeats": 150},
                  "cls": {"finite-velocity": 100, "runaway": 10}},
 }
 
@@ -431,14 +431,33 @@ def run_case(case):
                     from wgverif.checks import _meta as MT
                     vv = [s_ for s_ in signs if s_ is not None][-1][0]
                     solver = manager.setupWallSolver(settings)
-                    Ps = []
+                    Ps, outs = [], []
                     for L0 in (cfg["wallThicknessGuess"], cfg["wallThicknessGuess"] / 2.5):
                         wpx = WallGo.WallParams(widths=np.full(pot.fieldCount, L0 / b["Tn"]),
                                                 offsets=np.zeros(pot.fieldCount))
-                        Ps.append(float(tr._wp(solver.eom, vv, wpx)[0]))
+                        outs.append(tr._wp(solver.eom, vv, wpx))
+                        Ps.append(float(outs[-1][0]))
                     rel_ = abs(Ps[0] - Ps[1]) / max(abs(Ps[0]), abs(Ps[1]), 1e-300)
                     obs["start_dependence"] = {"vw": vv, "P": Ps, "rel": rel_}
+                    early = False
                     if rel_ > 3 * cfg["pressRelErrTol"]:
+                        # the known finding is a start dependence between end states that are
+                        # each a local minimum of the action; an end state held by something
+                        # else (e.g. a bound) is a different mechanism and is not absorbed
+                        ends = []
+                        for oo in outs:
+                            wdrop, where_, sc_ = MT.action_drop(solver.eom, manager.thermodynamics, oo)
+                            ends.append({"drop_over_scale": wdrop / sc_, "where": where_,
+                                         "stationary": bool(wdrop >= -1e-3 * sc_)})
+                        obs["start_dependence"]["end_states"] = ends
+                        early = all(e["stationary"] for e in ends)
+                        if not early:
+                            e_ = [e for e in ends if not e["stationary"]][0]
+                            fail("wall-parameters-not-a-minimum-of-the-action",
+                                 f"wallPressure({vv:.5f}) ends where the action is lower by "
+                                 f"{-e_['drop_over_scale']:.2e} of its kinetic part at "
+                                 f"{e_['where']}")
+                    if rel_ > 3 * cfg["pressRelErrTol"] and early:
                         for x in bad:
                             x["msg"] += (f" | mechanism probe: wallPressure({vv:.5f}) = "
                                          f"{Ps[0]:.4e} / {Ps[1]:.4e} from two initial "
